@@ -8,7 +8,7 @@ CLASS_PROPS = {'values': ['C15'], 'attempts': ['C15'], 'overlap': ['C15'], 'torn
 
 def run(rep, pid, thorough):
     cfg = ('resub', 'SPECIFICATION Spec\nCONSTANTS MaxAttempts = %d\n MaxVals = %d\nINVARIANTS AtMostOneLiveAttempt AttemptsInOrder Grammar Bounded EmitCase\n' % ((4, 2) if thorough else (3, 1)))
-    pp.run(rep, pid, [cfg], modes='sync,async,apply-decoy-first,apply-real-first', module='ResubGen', replay_cmd='replay-resub', class_props=CLASS_PROPS, prefix='resub.')
+    pp.run(rep, pid, [cfg], modes='sync,async,apply-decoy-first,apply-real-first,twice', module='ResubGen', replay_cmd='replay-resub', class_props=CLASS_PROPS, prefix='resub.')
 
 
 def replay_case(pid, path):
